@@ -2980,9 +2980,13 @@ class sptensor:
                 self.shape,
             )
         if isinstance(other, ttb.tensor):
+            if self.nnz == 0:
+                return self.copy()
             csubs = self.subs
-            cvals = self.vals * other[csubs][:, None]
-            return ttb.sptensor(csubs, cvals, self.shape)
+            cvals = self.vals * np.atleast_1d(other[csubs])[:, None]
+            # Drop products with a zero of the dense operand
+            keep = cvals.reshape(-1) != 0
+            return ttb.sptensor(csubs[keep], cvals[keep], self.shape)
         if isinstance(other, ttb.ktensor):
             csubs = self.subs
             cvals = np.zeros(self.vals.shape)
